@@ -120,8 +120,8 @@ func TestC35(t *testing.T) {
 		r.Inconclusive(fmt.Sprintf("only %d session states harvested", len(base)))
 		return
 	}
-	n := mon.Pick(150, 3000)
-	fullMutations := mon.Pick(12, 200) // tickets on which *every* bit flip / truncation is tried
+	n := mon.Pick(500, 3000)
+	fullMutations := mon.Pick(24, 200) // tickets on which *every* bit flip / truncation is tried
 	for i := 0; i < n; i++ {
 		rg := Sub("C35", i)
 		st := base[i%len(base)]
@@ -241,7 +241,7 @@ func TestC35(t *testing.T) {
 
 	// forged ClientSessionState resumption (TLS 1.2, EMS and non-EMS suites)
 	forged := 0
-	rounds := mon.Pick(12, 120)
+	rounds := mon.Pick(30, 120)
 	for i := 0; i < rounds; i++ {
 		rg := Sub("C35forge", i)
 		suites := []uint16{tls.TLS_ECDHE_ECDSA_WITH_AES_128_GCM_SHA256, tls.TLS_ECDHE_RSA_WITH_AES_256_GCM_SHA384, tls.TLS_ECDHE_RSA_WITH_CHACHA20_POLY1305_SHA256, tls.TLS_ECDHE_RSA_WITH_AES_128_CBC_SHA}
@@ -312,7 +312,7 @@ func TestC35(t *testing.T) {
 	// (its key was at most one day old when it sealed), and never opens once it is 8 days
 	// old (by then a rotation that saw the key older than 7 days has certainly happened).
 	{
-		hist := mon.Pick(120, 4000)
+		hist := mon.Pick(400, 4000)
 		day := 24 * time.Hour
 		for hi := 0; hi < hist; hi++ {
 			rg := Sub("C35auto", hi)
